@@ -6,6 +6,7 @@ import (
 	"errors"
 	"fmt"
 	"io"
+	"net"
 	"net/http"
 	"reflect"
 	"sort"
@@ -24,6 +25,7 @@ type reqSpec struct {
 	hdrs                []string // raw header lines
 	bodyLen             int
 	chunked             bool
+	remote              string // client address as net/http reports it ("" = the kit's default IPv4 peer)
 }
 
 type blockSpec struct {
@@ -218,6 +220,11 @@ func run(rep *kit.Report, rq reqSpec, bl blockSpec, rp replySpec, retry bool) {
 	if err != nil {
 		rep.Broken("bad request: %v", err)
 	}
+	clientIP := "192.0.2.7"
+	if rq.remote != "" {
+		req.RemoteAddr = rq.remote
+		clientIP, _, _ = net.SplitHostPort(rq.remote)
+	}
 	clientHeader := req.Header.Clone()
 	clientEscPath := req.URL.EscapedPath() // (the proxy's director rewrites the shared URL in place)
 	rec := kit.NewRec(req.Method)
@@ -230,7 +237,7 @@ func run(rep *kit.Report, rq reqSpec, bl blockSpec, rp replySpec, retry bool) {
 	}()
 	rec.Finish()
 	rep.Eval(1)
-	reqDesc := fmt.Sprintf("%s %s headers=%v body=%d chunked=%v", rq.method, target, rq.hdrs, rq.bodyLen, rq.chunked)
+	reqDesc := fmt.Sprintf("%s %s headers=%v body=%d chunked=%v client=%s", rq.method, target, rq.hdrs, rq.bodyLen, rq.chunked, clientIP)
 	replyDesc := fmt.Sprintf("%d headers=%v body=%d trailers=%s", rp.status, rp.hdrs, rp.bodyLen, rp.trailers)
 	var diffs []string
 	sigKinds := map[string]bool{}
@@ -318,7 +325,7 @@ func run(rep *kit.Report, rq reqSpec, bl blockSpec, rp replySpec, retry bool) {
 			}
 			exp[k] = append([]string{}, vv...)
 		}
-		xff := "192.0.2.7"
+		xff := clientIP
 		if prior := clientHeader.Values("X-Forwarded-For"); len(prior) > 0 {
 			xff = strings.Join(prior, ", ") + ", " + xff
 		}
@@ -328,7 +335,7 @@ func run(rep *kit.Report, rq reqSpec, bl blockSpec, rp replySpec, retry bool) {
 			wantHost = "b0.test"
 		}
 		if bl.transparent {
-			exp.Set("X-Real-Ip", "192.0.2.7")
+			exp.Set("X-Real-Ip", clientIP)
 			exp.Set("X-Forwarded-Proto", "http")
 			exp.Set("Host", "client.test")
 			wantHost = "client.test"
@@ -499,11 +506,12 @@ func main() {
 	}
 	rbodies := []int{0, 1, 65537}
 	trailers := []string{"", "announced", "unannounced"}
-	dims := []int{len(methods), len(paths), len(queries), len(hdrSets), len(bodyLens), len(framings), len(bases), len(tqueries), len(withouts), len(transp), len(ups), len(downs), len(statuses), len(rhdrs), len(rbodies), len(trailers)}
+	remotes := []string{"", "[2001:db8::1]:4242", "[fe80::1%eth0]:80", "203.0.113.9:1"}
+	dims := []int{len(methods), len(paths), len(queries), len(hdrSets), len(bodyLens), len(framings), len(bases), len(tqueries), len(withouts), len(transp), len(ups), len(downs), len(statuses), len(rhdrs), len(rbodies), len(trailers), len(remotes)}
 	def := make([]int, len(dims))
 	def[0] = 1 // POST
 	build := func(ix []int) (reqSpec, blockSpec, replySpec) {
-		rq := reqSpec{methods[ix[0]], paths[ix[1]], queries[ix[2]], hdrSets[ix[3]], bodyLens[ix[4]], framings[ix[5]]}
+		rq := reqSpec{methods[ix[0]], paths[ix[1]], queries[ix[2]], hdrSets[ix[3]], bodyLens[ix[4]], framings[ix[5]], remotes[ix[16]]}
 		bl := blockSpec{bases[ix[6]], tqueries[ix[7]], withouts[ix[8]], transp[ix[9]], ups[ix[10]], downs[ix[11]], 1}
 		rp := replySpec{statuses[ix[12]], rhdrs[ix[13]], rbodies[ix[14]], trailers[ix[15]]}
 		if rq.method == "GET" || rq.method == "DELETE" {
@@ -532,21 +540,45 @@ func main() {
 			}
 		}
 	}
-	if rep.Thorough() {
-		// triples of the interacting dimensions: path x base x without x query; headers x transparent x rules
-		for _, tri := range [][3]int{{1, 6, 8}, {1, 6, 2}, {3, 9, 10}, {4, 5, 0}, {12, 14, 15}, {13, 11, 12}} {
-			for x := 0; x < dims[tri[0]]; x++ {
-				for y := 0; y < dims[tri[1]]; y++ {
-					for z := 0; z < dims[tri[2]]; z++ {
-						ix := append([]int{}, def...)
-						ix[tri[0]], ix[tri[1]], ix[tri[2]] = x, y, z
-						if k := fmt.Sprint(ix); !seenJob[k] {
-							seenJob[k] = true
-							jobs = append(jobs, job{ix})
+	// every triple of values of every three dimensions (3-wise covering, complete)
+	for a := 0; a < len(dims); a++ {
+		for b := a + 1; b < len(dims); b++ {
+			for c := b + 1; c < len(dims); c++ {
+				for va := 0; va < dims[a]; va++ {
+					for vb := 0; vb < dims[b]; vb++ {
+						for vc := 0; vc < dims[c]; vc++ {
+							ix := append([]int{}, def...)
+							ix[a], ix[b], ix[c] = va, vb, vc
+							if k := fmt.Sprint(ix); !seenJob[k] {
+								seenJob[k] = true
+								jobs = append(jobs, job{ix})
+							}
 						}
 					}
 				}
 			}
+		}
+	}
+	if rep.Thorough() {
+		// full products of the groups of dimensions that meet in one piece of code:
+		// target construction (path x query x base x target query x without), header handling (headers x transparent x upstream rule x client address),
+		// request body (method x length x framing x headers), reply (status x headers x body x trailers x downstream rule)
+		for _, grp := range [][]int{{1, 2, 6, 7, 8}, {3, 9, 10, 16}, {0, 4, 5, 3}, {12, 13, 14, 15, 11}} {
+			var rec func(k int, ix []int)
+			rec = func(k int, ix []int) {
+				if k == len(grp) {
+					if key := fmt.Sprint(ix); !seenJob[key] {
+						seenJob[key] = true
+						jobs = append(jobs, job{append([]int{}, ix...)})
+					}
+					return
+				}
+				for v := 0; v < dims[grp[k]]; v++ {
+					ix[grp[k]] = v
+					rec(k+1, ix)
+				}
+			}
+			rec(0, append([]int{}, def...))
 		}
 	}
 	rep.Set("cases", len(jobs))
@@ -562,7 +594,7 @@ func main() {
 				for _, up := range ups {
 					for _, wo := range withouts {
 						for _, tq := range tqueries {
-							rq := reqSpec{"POST", "/api/x", "q=1", []string{"X-A: 1", "Connection: X-Hop", "X-Hop: v"}, bodyLen, ch}
+							rq := reqSpec{"POST", "/api/x", "q=1", []string{"X-A: 1", "Connection: X-Hop", "X-Hop: v"}, bodyLen, ch, ""}
 							bl := blockSpec{base, tq, wo, false, up, "", 2}
 							run(rep, rq, bl, replySpec{200, [][2]string{{"X-B", "1"}}, 5, ""}, true)
 						}
